@@ -157,7 +157,7 @@ func TestC08(t *testing.T) {
 	block := 0
 	mine := func() bool { block++; return rec.Env.Mine(block) }
 	stop := map[string]bool{}
-	alpha := []byte{0x00, 0x01, 0x3f, 0x40, 0x7f, 0x80, 0xbf, 0xc0, 0xff}
+	alpha := []byte{0x00, 0x01, 0x3f, 0x40, 0x41, 0x7f, 0x80, 0xbf, 0xc0, 0xff}
 
 	for _, ti := range types {
 		ti := ti
@@ -180,8 +180,13 @@ func TestC08(t *testing.T) {
 		}
 		// every length 0..20: constant fills from the alphabet, a ramp, and "valid prefix + garbage"
 		if mine() {
-			for n := 0; n <= 20; n++ {
+			// 0..20 densely, then every length up to 300 (the payload of a long frame handed to the wrong type: 254
+			// octets fit into an extended frame, and what rejects a wrong length may do more work the longer it is)
+			for n := 0; n <= 300; n++ {
 				for _, a := range alpha {
+					if n > 20 && a != 0x00 && a != 0x41 && a != 0xff && a != 0x80 {
+						continue
+					}
 					try(bytes.Repeat([]byte{a}, n))
 					if n > 0 {
 						p := bytes.Repeat([]byte{a}, n)
@@ -335,7 +340,7 @@ func TestC08(t *testing.T) {
 	// histories of two: every payload of a lattice decoded right after every other one of the same type (a receiver
 	// that remembers what it validated last must not accept more because of it). Dates: every day 1..31 x month 1..12
 	// of a year after every valid date of that year (years 1990, 2000, 2023, 2024, 2089; thorough: all 100); times of
-	// day: the field boundaries; every other fixed-length type: the 81 alphabet pairs in its last two octets.
+	// day: the field boundaries; every other fixed-length type: the 100 alphabet pairs in its last two octets.
 	{
 		var pairs, pnt int64
 		pairTry := func(ti typeInfo, x, y []byte) bool {
@@ -427,7 +432,33 @@ func TestC08(t *testing.T) {
 		rec.Eval(pairs)
 		rec.NonTrivialEnum(pnt)
 		rec.ClassN("decode-after-decode pairs", pairs)
-		rec.Exhaustive("11.001: every day/month combination of a year decoded right after every valid date of that year (quick: 5 years, thorough: 1990..2089); 10.001: 160 field-boundary payloads, all ordered pairs; other fixed-length types: all ordered pairs of 81 payloads")
+		rec.Exhaustive("11.001: every day/month combination of a year decoded right after every valid date of that year (quick: 5 years, thorough: 1990..2089); 10.001: 160 field-boundary payloads, all ordered pairs; other fixed-length types: all ordered pairs of 100 payloads")
+	}
+	// the calendar check does not depend on the process's local time zone: every day/month combination of five years,
+	// decoded under zones whose calendars have days without a midnight
+	if rec.Env.Shard == 0 {
+		if ti, ok := typeByName("11.001"); ok {
+			var n int64
+			done := false
+			underZones(func(zone string) {
+				for _, y := range []int{1990, 2000, 2011, 2017, 2024, 2089} {
+					for m := 0; m <= 13 && !done; m++ {
+						for dd := 0; dd <= 32; dd++ {
+							n++
+							p := []byte{0, byte(dd), byte(m), byte(y % 100)}
+							if _, f := c08Check(ti, produce(ti.Name), p); f != nil {
+								f.Detail += fmt.Sprintf(" (with the process's local time zone set to %s)", zone)
+								common.Report(t, rec, f, c08Plan{Type: ti.Name, Hex: hx(p)})
+								done = true
+								break
+							}
+						}
+					}
+				}
+			})
+			rec.Eval(n)
+			rec.ClassN("dates-under-local-zones", n)
+		}
 	}
 	// concurrent decodes into separate instances (every socket has its own receiver goroutine, applications decode in
 	// their handlers): "whenever decoding succeeds the value is in range" holds for each of them. For every main number:
@@ -474,7 +505,7 @@ func TestC08(t *testing.T) {
 		rec.Eval(storms * 8 * 400 * 2)
 		rec.ClassN("concurrent-decode-storms", storms)
 	}
-	rec.Exhaustive("every length 0..20 under 9 constant fills (with and without zero first/last byte) for each registered type; all 256 payloads of the 1-byte types; all 2^16 payloads of the 2-byte types; all 2^16 value encodings of the 3-byte types under leading bytes 00/ff; all reserved-bit octets of 242.600/251.600")
+	rec.Exhaustive("every length 0..20 under 10 constant fills and every length 21..300 under 4 (with and without zero first/last byte) for each registered type; all 256 payloads of the 1-byte types; all 2^16 payloads of the 2-byte types; all 2^16 value encodings of the 3-byte types under leading bytes 00/ff; all reserved-bit octets of 242.600/251.600")
 	if thorough {
 		rec.Exhaustive("all 2^24 payloads of every 3-byte type; all 2^24 value octets (all day/month/year and weekday/hour/minute/second combinations with all reserved bits) of 10.001, 11.001, 232.600 under leading bytes 00/ff")
 	}
@@ -485,7 +516,9 @@ func TestC08(t *testing.T) {
 	common.Drive(t, rec, func(rt *rapid.T) c08Plan {
 		ti := types[rapid.IntRange(0, len(types)-1).Draw(rt, "type")]
 		var n int
-		switch rapid.IntRange(0, 3).Draw(rt, "lenclass") {
+		switch rapid.IntRange(0, 4).Draw(rt, "lenclass") {
+		case 4:
+			n = rapid.SampledFrom([]int{31, 32, 33, 63, 64, 65, 127, 128, 129, 253, 254, 255, 256, 257, 300, 1000}).Draw(rt, "len-long")
 		case 0:
 			n = rapid.IntRange(0, 20).Draw(rt, "len")
 		case 1:
